@@ -135,14 +135,18 @@ func (p *poller) Closed() bool {
 }
 
 func (p *poller) Post(handler func()) error {
+	verifGate("post.enter")
 	p.lck.Lock()
 	p.posts = append(p.posts, handler)
 	atomic.AddInt64(&p.posted, 1)
 	atomic.AddInt64(&p.pending, 1)
+	verifGate("post.appended")
 	p.lck.Unlock()
+	verifGate("post.unlocked")
 
 	// Concurrent writes are thread safe for eventfds.
 	_, err := p.waker.Write(1)
+	verifGate("post.signalled")
 	return err
 }
 
@@ -151,6 +155,7 @@ func (p *poller) Posted() int {
 }
 
 func (p *poller) Poll(timeoutMs int) (n int, err error) {
+	verifGate("poll.wait")
 	/* #nosec G103 -- the use of unsafe has been audited */
 	nn, _, errno := syscall.Syscall6(
 		syscall.SYS_EPOLL_WAIT,
@@ -161,6 +166,7 @@ func (p *poller) Poll(timeoutMs int) (n int, err error) {
 		0, 0,
 	)
 	n = int(nn)
+	verifGate("poll.woken")
 
 	if errno != 0 {
 		err = errno // we need to convert
@@ -224,9 +230,11 @@ func (p *poller) dispatch() {
 
 	// Take the posted handlers and run them without holding the lock, such that handlers can call Post (or Posted)
 	// themselves. Handlers posted while these ones run are executed on the next dispatch.
+	verifGate("dispatch.drained")
 	p.lck.Lock()
 	p.posts, p.dispatching = p.dispatching[:0], p.posts
 	p.lck.Unlock()
+	verifGate("dispatch.taken")
 
 	for i, handler := range p.dispatching {
 		handler()
@@ -234,6 +242,7 @@ func (p *poller) dispatch() {
 		atomic.AddInt64(&p.posted, -1)
 		atomic.AddInt64(&p.pending, -1)
 	}
+	verifGate("dispatch.done")
 }
 
 func (p *poller) SetRead(slot *Slot) error {
